@@ -1,6 +1,6 @@
 --------------------------- MODULE NodeMgmtDriver ---------------------------
 EXTENDS NodeMgmt
-CONSTANTS Acts, MaxDepth
+CONSTANTS Acts, MaxDepth, TRs      \* TRs: the delete_target_references flags DeleteNodes is tried with
 VARIABLES depth
 DInit == Init /\ depth = 0
 Ids == 1..K
@@ -11,6 +11,6 @@ DNext ==
      \/ "AddRef" \in Acts /\ \E a \in nodes \cup {9}, t \in Types, b \in nodes \cup {9}, f \in BOOLEAN : AddRef(a, t, b, f)
      \/ "DelRef" \in Acts /\ \E a \in nodes, t \in Types, b \in nodes, f \in BOOLEAN, bi \in BOOLEAN :
           (bi => f) /\ DelRef(a, t, b, f, bi)
-     \/ "DelNode" \in Acts /\ \E n \in (nodes \ {0}) \cup {9} : DelNode(n)
+     \/ "DelNode" \in Acts /\ \E n \in Ids \cup {9}, tr \in TRs : DelNode(n, tr)
 Done == depth = MaxDepth
 =============================================================================
